@@ -23,7 +23,12 @@ RULE = ("ices {Antarctic, Arasim, Greenland, random (n0,k,a)} x endpoint pairs d
         "depths, within 1% of direct_r_max / indirect_r_max, source above / below receiver) x dz in {0.1,1,5} x "
         "{SpecializedRayTracer, BasicRayTracer} x endpoint containers {tuple, list, float ndarray, int ndarray} x "
         "caller-side reuse of the endpoint buffers {none, overwritten in place right after construction, overwritten "
-        "after `solutions` was read and before any path property is}; plus formula-level requests (z, beta, deep) for the three "
+        "after `solutions` was read and before any path property is}; ices incl. a top of the valid range below 0 and "
+        "non-default / None index_above, index_below; an endpoint outside the valid range (no solutions allowed); the "
+        "same endpoints traced back to back in every ice model; one tracer object re-used by reassigning from_point / "
+        "to_point / dz (query-reassign-query sequences of three geometries, first geometry cycling through the "
+        "classes); paths of the previous case re-read after the next tracer was solved (several live handles); plus "
+        "formula-level requests (z, beta, deep) for the three "
         "closed forms in all three branches and tracer-level requests (r functions at random angles, angle "
         "conversion, expected_solutions); non-trivial = the tracer returned a solution or the formula request "
         "has gamma>0; distinct = distinct (ice, endpoints, tracer, dz, solution) / (ice, op, arguments) tuples")
@@ -59,7 +64,9 @@ LEVEL_NOTE = ("floating-point rounding is not modelled (tolerance run; the ampli
               "(SpecializedRayTracer link_range interpolation next to max_angle) are recorded, their input classes are "
               "recognised from the implementation alone and any miss outside them is a violation; state across calls: a tracer/path "
               "must answer for the endpoints it was constructed with (compared with a tracer built from private copies "
-              "and with RK4 from the original source) and must not write into the caller's buffers; not claimed: depths "
+              "and with RK4 from the original source) and must not write into the caller's buffers; a "
+              "re-used tracer (attributes reassigned) must answer like a fresh one, and earlier paths must keep their "
+              "values when later tracers are solved; not claimed: depths "
               "where n(z) is indistinguishable from n0 in double precision (n0-n < 1e-13 n0; the Specialized tracer "
               "raises ValueError there) and BasicRayTracer with |z_from - z_to| < dz (returns no solutions)")
 ASSUMPTIONS = ["scipy.optimize.brentq terminates; its result is only used after the certificate check",
@@ -100,8 +107,12 @@ def ices(run, nrandom):
         k = run.rng.uniform(0.2, min(0.6, n0 - 1.05))
         a = 10 ** run.rng.uniform(-2.2, -1.4)
         lo = -run.rng.uniform(1500, 3500)
+        # top of the valid range at or below 0, declared indices outside the range default / None / custom
+        hi = run.rng.choice([0, 0, -round(run.rng.uniform(5, 60), 1)])
+        ab = run.rng.choice([1, 1, None, 1.2])
+        be = run.rng.choice([None, None, round(n0, 4)])
         out.append(("random", im.AntarcticIce(n0=round(n0, 4), k=round(k, 4), a=round(a, 5),
-                                              valid_range=(round(lo), 0))))
+                                              valid_range=(round(lo), hi), index_above=ab, index_below=be)))
     return out
 
 
@@ -112,11 +123,13 @@ def ice_toks(ice):
 
 
 def ice_desc(name, ice):
-    return [name, ice.n0, ice.k, ice.a, ice.valid_range[0], ice.valid_range[1]]
+    return [name, ice.n0, ice.k, ice.a, ice.valid_range[0], ice.valid_range[1], ice._index_above, ice._index_below]
 
 
 def make_ice(d):
     rt, im = _pyrex()
+    if len(d) >= 8:
+        return im.AntarcticIce(n0=d[1], k=d[2], a=d[3], valid_range=(d[4], d[5]), index_above=d[6], index_below=d[7])
     return im.AntarcticIce(n0=d[1], k=d[2], a=d[3], valid_range=(d[4], d[5]))
 
 
@@ -130,7 +143,7 @@ def z_uniform_impl(ice):
 
 
 GEOM_CLASSES = ["shallow", "deep", "across", "near_vertical", "k3_region", "near_direct_max", "near_indirect_max",
-                "equal_depth", "vertical", "bounds"]
+                "equal_depth", "vertical", "bounds", "outside"]
 
 
 def geometry(run, ice, cls_name):
@@ -141,10 +154,18 @@ def geometry(run, ice, cls_name):
     # max_angle = arcsin(n(z1)/n(z0)) rounds to pi/2 and the Specialized tracer divides by alpha = 0
     # (it raises ValueError: no path is returned, outside the claim; see LEVEL_NOTE)
     lo = max(lo, math.log(1e-13 * ice.n0 / ice.k) / ice.a)
+    top = hi - 3
+    rng = run.rng
+    if cls_name == "outside":
+        # one endpoint outside the valid range (above the top / below the bottom): no solutions may be returned
+        zin = rng.uniform(max(lo + 5, -1500), top)
+        zout = rng.choice([hi + rng.uniform(0.01, 50), float(ice.valid_range[0]) - rng.uniform(0.01, 50)])
+        za, zb = (zin, zout) if rng.random() < 0.5 else (zout, zin)
+        return float(za), float(zb), float(rng.uniform(10, 800))
     zu = z_uniform(ice)
     rng = run.rng
     if cls_name == "shallow":
-        za, zb = rng.uniform(max(zu, lo) + 5, -3), rng.uniform(max(zu, lo) + 5, -3)
+        za, zb = rng.uniform(max(zu, lo) + 5, top), rng.uniform(max(zu, lo) + 5, top)
         rho = rng.uniform(10, 1500)
     elif cls_name == "deep":
         if zu - 20 < lo + 20:
@@ -154,23 +175,23 @@ def geometry(run, ice, cls_name):
     elif cls_name == "across":
         if zu - 20 < lo + 20:
             return None
-        za, zb = rng.uniform(lo + 10, zu - 10), rng.uniform(zu + 10, -3)
+        za, zb = rng.uniform(lo + 10, zu - 10), rng.uniform(zu + 10, top)
         rho = rng.uniform(10, 3000)
     elif cls_name == "near_vertical":
-        za, zb = rng.uniform(-1500, -3), rng.uniform(-1500, -3)
+        za, zb = rng.uniform(-1500, top), rng.uniform(-1500, top)
         za, zb = max(za, lo + 5), max(zb, lo + 5)
         if abs(za - zb) < 20:
             zb = za - 40 if za - 40 > lo else za + 40
         rho = abs(za - zb) * rng.uniform(0.004, 0.03)      # above the K3 region (0.0029 |dz|), both paths
         rho += (abs(za) + abs(zb)) * 0.0035 * rng.choice([0, 1])
     elif cls_name == "k3_region":
-        za, zb = rng.uniform(-1200, -50), rng.uniform(-1200, -50)
+        za, zb = rng.uniform(-1200, min(-50, top)), rng.uniform(-1200, min(-50, top))
         za, zb = max(za, lo + 5), max(zb, lo + 5)
         if abs(za - zb) < 20:
             zb = za - 40 if za - 40 > lo else za + 40
         rho = abs(za - zb) * rng.uniform(0.0002, 0.0025)
     elif cls_name in ("near_direct_max", "near_indirect_max"):
-        za, zb = rng.uniform(max(lo + 10, -1200), -3), rng.uniform(max(lo + 10, -600), -3)
+        za, zb = rng.uniform(max(lo + 10, -1200), top), rng.uniform(max(lo + 10, -600), top)
         if abs(za - zb) < 12:
             zb = za - 30 if za - 30 > lo else za + 30
         t = rt.SpecializedRayTracer((0, 0, za), (100., 0, zb), ice)
@@ -180,7 +201,7 @@ def geometry(run, ice, cls_name):
         rho = float(rmax) * (1 + rng.choice([-1, 1]) * rng.uniform(0.0005, 0.01))
     elif cls_name == "vertical":
         # exactly vertically aligned endpoints (same x and y, rho == 0.0), both orders (the swap below)
-        za, zb = rng.uniform(max(lo + 5, -1800), -3), rng.uniform(max(lo + 5, -1800), -3)
+        za, zb = rng.uniform(max(lo + 5, -1800), top), rng.uniform(max(lo + 5, -1800), top)
         if abs(za - zb) < 20:
             zb = za - 40 if za - 40 > lo else za + 40
         rho = 0.0
@@ -188,7 +209,7 @@ def geometry(run, ice, cls_name):
         # an endpoint exactly on a distinguished depth: top / bottom of the valid range, z_uniform
         special = rng.choice([float(hi), float(ice.valid_range[0]), z_uniform_impl(ice)])
         za = special
-        zb = rng.uniform(max(lo + 5, -1500), -3)
+        zb = rng.uniform(max(lo + 5, -1500), top)
         if abs(za - zb) < 20:
             zb = zb - 40 if zb - 40 > lo else zb + 40
         rho = rng.uniform(10, 800)
@@ -198,13 +219,15 @@ def geometry(run, ice, cls_name):
     elif cls_name == "equal_depth":
         # shallow only: in (numerically) uniform deep ice a ray between equal depths turns with
         # alpha = n0^2 - beta^2 ~ 1e-8, where every closed form is rounding noise
-        za = rng.uniform(max(lo + 10, zu + 5, -800), -3)
+        za = rng.uniform(max(lo + 10, zu + 5, -800), top)
         zb = za
         rho = rng.uniform(10, 600)
     else:
         raise ValueError(cls_name)
     if rng.random() < 0.5:
         za, zb = zb, za
+    if max(za, zb) > hi or min(za, zb) < ice.valid_range[0]:
+        return None
     return float(round(za, 3)), float(round(zb, 3)), float(rho)
 
 
@@ -264,6 +287,16 @@ def solve(tname, A, B, ice, dz, alias=None, container="tuple"):
     return t, sols, bufs
 
 
+def path_snapshot(sols):
+    out = []
+    for p in sols:
+        with np.errstate(all="ignore"):
+            out.append([float(p.theta0), float(p.path_length), float(p.tof)] + list(map(float, p.emitted_direction))
+                       + list(map(float, p.received_direction)) + list(map(float, p.from_point))
+                       + list(map(float, p.to_point)) + [1.0 if p.direct else 0.0])
+    return out
+
+
 def alias_check(run, inp0, t, sols, bufs, A, B, alias, container, ref):
     """state kept across calls: the tracer and its paths answer for the endpoints they were constructed with,
     whatever the caller does to its own buffers afterwards, and they never write into the caller's buffers.
@@ -279,7 +312,7 @@ def alias_check(run, inp0, t, sols, bufs, A, B, alias, container, ref):
                            what="%s no longer holds the endpoints it was constructed with after the caller "
                                 "overwrote its own %s buffers (%s)" % (nm, container, alias))
             return False
-    if alias is None and container != "tuple":
+    if alias is None and container != "tuple" and bufs[0] is not None:
         if not (np.array_equal(np.asarray(bufs[0], dtype=float), A0)
                 and np.array_equal(np.asarray(bufs[1], dtype=float), B0)):
             run.fail_input("caller-buffer-modified", inp0, observed=[list(map(float, b)) for b in bufs],
@@ -484,7 +517,8 @@ def deep_slack(ice, z_from, z_to, beta, direct):
     Returns (dr, dlen, dtof) slacks."""
     zu = z_uniform(ice)
     lo = ice.valid_range[0]
-    segs = [(min(z_from, z_to), max(z_from, z_to))] if direct else [(z_from, 0.0), (z_to, 0.0)]
+    hi_ = float(ice.valid_range[1])
+    segs = [(min(z_from, z_to), max(z_from, z_to))] if direct else [(z_from, hi_), (z_to, hi_)]
     tot = 0.0
     for a_, b_ in segs:
         if a_ < zu:
@@ -791,6 +825,20 @@ def case_list(run, quick_n, thorough_n, basic_every):
             cases.append((name, ice, cname, zf, zt, rho, "specialized", dz))
             if (i + rep) % basic_every == 0:
                 cases.append((name, ice, cname, zf, zt, rho, "basic", dz))
+        # the same endpoints (same depths to the last bit) in every ice model, back to back: state shared
+        # between tracer objects must not leak from one ice model into the next
+        if rep % 3 == 0:
+            g = geometry(run, il[0][1], run.rng.choice(["shallow", "across", "near_vertical"]))
+            if g is not None:
+                zf, zt, rho = g
+                dz = run.rng.choice([1, 5])
+                tn = "basic" if rep % 2 else "specialized"
+                for name, ice in il:
+                    # inside this ice too, and above the depth where its index is indistinguishable from n0
+                    # (see geometry(): outside the claim)
+                    if max(ice.valid_range[0], math.log(1e-13 * ice.n0 / ice.k) / ice.a) <= min(zf, zt) \
+                            and max(zf, zt) <= ice.valid_range[1]:
+                        cases.append((name, ice, "same_geometry_other_ice", zf, zt, rho, tn, dz))
     return cases
 
 
@@ -809,6 +857,16 @@ def correspondence(run):
     n_corr_cases = 0
     for name, ice, cname, zf, zt, rho, tname, dz in case_list(run, 15, 120, 3):
         A, B = endpoints(run, zf, zt, rho)
+        if cname == "outside":
+            # an endpoint outside the valid range: the decision table must say "no solutions"
+            t = tracer_classes()[tname](A, B, ice, dz=dz)
+            with np.errstate(all="ignore"):
+                flags = [bool(b) for b in t.expected_solutions]
+            cf, ct = (1.0 if ice.contains(A) else 0.0), (1.0 if ice.contains(B) else 0.0)
+            add([("expected %s %s" % (ice_toks(ice), fw.fl([cf, ct, float(rho), 1e9, 1e9])), flags,
+                  (name, "expected-outside", zf, zt, rho, tname, dz), "flags")])
+            run.count("geom_outside")
+            continue
         n_corr_cases += 1
         alias = "after_solutions" if n_corr_cases % 4 == 0 else None
         container = "ndarray" if n_corr_cases % 2 == 0 else "tuple"
@@ -1266,10 +1324,29 @@ def search(run, deep):
     n_q, n_t = (25, 300)
     cases = case_list(run, n_q if not deep else n_t, n_t, 3)
     h = 0.5
+    reuse_cases(run, 24 if not deep else 200)
+    prev = None      # (input, paths, snapshot) of the previous case: several live handles
     for name, ice, cname, zf, zt, rho, tname, dz in cases:
         if len([v for v in run.violations if not v[1]]) >= 5:
             break                      # enough concrete replays recorded
         A, B = endpoints(run, zf, zt, rho)
+        if cname == "outside":
+            inp_o = {"ice": ice_desc(name, ice), "from": list(map(float, A)), "to": list(map(float, B)),
+                     "tracer": tname, "dz": dz, "class": cname}
+            run.case((name, ice.n0, ice.k, ice.a, tname, dz, zf, zt, rho, "outside"))
+            run.count("search_geom_outside")
+            try:
+                t, sols, _ = solve(tname, A, B, ice, dz)
+                ex = bool(t.exists)
+            except Exception as e:
+                run.fail_input("exception", inp_o, observed="%s: %s" % (type(e).__name__, e),
+                               what="tracer raises for an endpoint outside the ice instead of reporting no solutions")
+                continue
+            if sols or ex:
+                run.fail_input("outside-ice", inp_o, observed={"solutions": len(sols), "exists": ex},
+                               expected="no solutions: an endpoint lies outside the ice's valid range",
+                               what="tracer returns paths although an endpoint is outside the ice")
+            continue
         # how the endpoints are handed over, and whether the caller recycles its buffers afterwards
         container = run.rng.choice(CONTAINERS)
         alias = run.rng.choice(ALIAS_MODES) if container != "tuple" else None
@@ -1304,6 +1381,16 @@ def search(run, deep):
         run.count("search_geom_%s" % cname)
         run.count("search_%s_nsol%d" % (tname, len(sols)))
         alias_check(run, inp0, t, sols, bufs, A, B, alias, container, ref)
+        if prev is not None:
+            now = path_snapshot(prev[1])
+            if not (len(now) == len(prev[2]) and all(fw.all_close(a_, b_, 1e-12, 1e-15) for a_, b_ in zip(now, prev[2]))):
+                run.fail_input("live-handle",
+                               dict(prev[0], followed_by={"ice": ice_desc(name, ice), "tracer": tname, "dz": dz,
+                                                          "from": list(map(float, A)), "to": list(map(float, B))}),
+                               observed=now, expected=prev[2],
+                               what="paths returned earlier changed after another tracer (%s %s->%s) was solved"
+                                    % (tname, list(A), list(B)))
+            prev = None
         if ref is not None:
             t = ref[0]            # geometry-dependent budgets / self-consistency from the private-copy tracer
         if len(sols) not in (0, 2):
@@ -1319,6 +1406,7 @@ def search(run, deep):
         for p in sols:
             check_solution(run, name, ice, cname, A, B, tname, dz, t, p, h, extra=extra)
         run.traces += len(sols)
+        prev = (inp0, sols, path_snapshot(sols))
         # oracle self-check in the deep tier: halving the RK4 step must not move the arrival point
         if deep and sols and run.rng.random() < 0.1:
             p = sols[-1]
@@ -1330,9 +1418,103 @@ def search(run, deep):
                     run.notes.append("RK4 step halving moved r by %.2e at %s" % (abs(r1["r"] - r2["r"]), inp0))
 
 
+def reuse_sequence(run, name, ice, tname, seq, h=0.5):
+    """query - reassign - query on ONE tracer object: `seq` = [(A, B, dz), ...]; after each reassignment of
+    from_point / to_point / dz the tracer must answer like a freshly built one (and like a true ray: RK4)."""
+    cls = tracer_classes()[tname]
+    A, B, dz = seq[0]
+    t = cls(np.array(A, dtype=float), np.array(B, dtype=float), ice, dz=dz)
+    for k, (A, B, dz) in enumerate(seq):
+        inp0 = {"ice": ice_desc(name, ice), "tracer": tname, "class": "reuse", "from": list(map(float, A)),
+                "to": list(map(float, B)), "dz": dz, "reuse_sequence": [[list(map(float, a)), list(map(float, b)), d]
+                                                                     for a, b, d in seq[:k + 1]]}
+        if k > 0:
+            # assign only what changed (a caller moving one endpoint, or refining dz)
+            if tuple(A) != tuple(seq[k - 1][0]):
+                t.from_point = np.array(A, dtype=float)
+            if tuple(B) != tuple(seq[k - 1][1]):
+                t.to_point = np.array(B, dtype=float)
+            if dz != seq[k - 1][2]:
+                t.dz = dz
+        try:
+            with np.errstate(all="ignore"):
+                sols = list(t.solutions)
+            ref = solve(tname, A, B, ice, dz)[:2]
+        except Exception as e:
+            if isinstance(e, ValueError) and "NaN" in str(e):
+                run.count("search_impl_nan_exception")
+                return
+            run.fail_input("exception", inp0, observed="%s: %s" % (type(e).__name__, e),
+                           what="re-used tracer raises on endpoints inside the ice")
+            return
+        run.case((name, ice.n0, ice.k, ice.a, tname, "reuse", k, tuple(A), tuple(B), dz), nontrivial=len(sols) > 0)
+        run.count("search_reuse_step%d" % k)
+        if not alias_check(run, inp0, t, sols, (None, None), A, B, "reuse", "ndarray", ref):
+            return
+        for p in sols:
+            check_solution(run, name, ice, "reuse", A, B, tname, dz, ref[0], p, h,
+                           extra={"reuse_sequence": inp0["reuse_sequence"]})
+
+
+def reuse_cases(run, n):
+    il = ices(run, 2)
+    for i in range(n):
+        name, ice = il[i % len(il)]
+        tname = "specialized" if i % 3 else "basic"
+        seq = []
+        dz = run.rng.choice([0.1, 1, 5]) if tname == "specialized" else run.rng.choice([1, 5])
+        g = None
+        while g is None:
+            first = ["equal_depth", "shallow", "near_direct_max", "across", "near_vertical", "near_indirect_max",
+                     "bounds"]
+            g = geometry(run, ice, first[i % len(first)] if run.rng.random() < 0.8 else run.rng.choice(first))
+        A, B = endpoints(run, g[0], g[1], g[2])
+        seq.append((A, B, dz))
+        for step in range(2):
+            kind = run.rng.choice(["to", "from", "both", "dz"])
+            g2 = None
+            while g2 is None:
+                g2 = geometry(run, ice, run.rng.choice(["shallow", "across", "deep", "near_vertical", "equal_depth",
+                                                         "near_direct_max", "near_indirect_max", "k3_region"]))
+            A2, B2 = endpoints(run, g2[0], g2[1], g2[2])
+            if kind == "to":
+                A2 = A
+            elif kind == "from":
+                B2 = B
+            elif kind == "dz":
+                A2, B2 = A, B
+                dz = 5 if dz != 5 else 1
+            A, B = A2, B2
+            seq.append((A, B, dz))
+        if len([v for v in run.violations if not v[1]]) >= 5:
+            break
+        reuse_sequence(run, name, ice, tname, seq)
+
+
 def replay(run, data):
     inp = data["input"]
     ice = make_ice(inp["ice"])
+    if "reuse_sequence" in inp:
+        seq = [(tuple(a), tuple(b), d) for a, b, d in inp["reuse_sequence"]]
+        reuse_sequence(run, inp["ice"][0], ice, inp["tracer"], seq, h=0.25)
+        return
+    if "followed_by" in inp:
+        fb = inp["followed_by"]
+        t1, sols1, _ = solve(inp["tracer"], tuple(inp["from"]), tuple(inp["to"]), ice, inp["dz"])
+        snap = path_snapshot(sols1)
+        t2, sols2, _ = solve(fb["tracer"], tuple(fb["from"]), tuple(fb["to"]), make_ice(fb["ice"]), fb["dz"])
+        path_snapshot(sols2)
+        now = path_snapshot(sols1)
+        if not (len(now) == len(snap) and all(fw.all_close(a_, b_, 1e-12, 1e-15) for a_, b_ in zip(now, snap))):
+            run.fail_input("live-handle", inp, observed=now, expected=snap,
+                           what="paths returned earlier changed after another tracer was solved")
+        return
+    if inp.get("class") == "outside":
+        t, sols, _ = solve(inp["tracer"], tuple(inp["from"]), tuple(inp["to"]), ice, inp["dz"])
+        if sols or bool(t.exists):
+            run.fail_input("outside-ice", inp, observed={"solutions": len(sols), "exists": bool(t.exists)},
+                           what="tracer returns paths although an endpoint is outside the ice")
+        return
     A, B = tuple(inp["from"]), tuple(inp["to"])
     container, alias = inp.get("container", "tuple"), inp.get("alias")
     t, sols, bufs = solve(inp["tracer"], A, B, ice, inp["dz"], alias=alias, container=container)
